@@ -101,6 +101,7 @@ func (a jsonList) diffRest(
 	strategy patchStrategy,
 ) Diff {
 	var aCursor, bCursor, commonSequenceCursor int
+	var kept JsonNode
 	pathCursor := pathIndex
 	pathNow := func() Path {
 		return append(path.clone().drop(), pathCursor)
@@ -208,6 +209,12 @@ accumulatingDiff:
 			} else {
 				d = subDiff
 			}
+			if len(subDiff) == 0 {
+				// The containers are equal under the options (numbers
+				// within precision) although their hash codes differ.
+				// The element of A stays in the patched document.
+				kept = a[aCursor]
+			}
 			aCursor++
 			bCursor++
 			pathCursor++
@@ -234,7 +241,7 @@ accumulatingDiff:
 		} else {
 			// Record context of accumulated diff. If we appended
 			// a sub-diff then it already has context.
-			if len(d) < 2 {
+			if len(d) < 2 && len(d[0].After) == 0 {
 				d[0].After = after()
 			}
 		}
@@ -243,12 +250,16 @@ accumulatingDiff:
 		return d
 	}
 	// Cursors point to the next elements.
+	previousNext := b[bCursor-1]
+	if kept != nil {
+		previousNext = kept
+	}
 	return append(d, a[aCursor:].diffRest(
 		pathCursor,
 		b[bCursor:],
 		pathNow(),
 		aHashes[aCursor:], bHashes[bCursor:], commonSequence[commonSequenceCursor:],
-		b[bCursor-1],
+		previousNext,
 		options,
 		strategy,
 	)...)
